@@ -53,8 +53,9 @@ const (
 	DirectiveINFOGottaBeOnlyOneTime   = "The directive INFO has already been specified before"
 	DirectiveBaseURLAlreadyDefined    = "The directive BaseUrl has already been defined before"
 
-	UnknownDirective = "unknown directive"
-	UnknownNotation  = "unknown notation"
+	UnknownDirective     = "unknown directive"
+	NoDirectiveForLexeme = "there is no directive this could belong to"
+	UnknownNotation      = "unknown notation"
 
 	RequiredParameterNotSpecified         = "required parameter(s) not specified"
 	ParametersAreForbiddenForTheDirective = "the directive should not have parameters in this case"
